@@ -33,7 +33,7 @@ pub mod nom {
         pub fn to_string(&self) -> String { unimplemented!() }
     }
     pub type IResult<I, O> = Result<(I, O), Err<error::Error<I>>>;
-    pub mod bytes { pub mod complete { pub use crate::nom_c::take; } }
+    pub mod bytes { pub mod complete { pub use crate::nom_c::take; } pub mod streaming { pub use crate::nom_c::take_streaming as take; } }
     pub mod multi { pub use crate::nom_c::count; pub use crate::nom_c::many0; }
     pub mod combinator { pub use crate::nom_c::map; pub use crate::nom_c::cond; pub use crate::nom_c::complete; }
 }
